@@ -314,11 +314,12 @@ func c18Deadlines(r *Run) {
 		kind  int // 0 RT, 1 idle-read, 2 idle-write, 3 idle-both, 4 future-not-reached, 5 reset-then-RT
 		d     time.Duration
 		reset int // 0 zero time, 1 far future
+		mid   bool // idle-read: the deadline passes while a message is partly consumed
 	}
 	durs := []time.Duration{-time.Hour, -time.Nanosecond, time.Nanosecond, time.Millisecond, time.Second, 30 * time.Second}
 	var plan []step
 	for i := 0; i < nSteps; i++ {
-		plan = append(plan, step{kind: t.Draw(5), d: durs[t.Draw(len(durs))], reset: t.Draw(2)})
+		plan = append(plan, step{kind: t.Draw(5), d: durs[t.Draw(len(durs))], reset: t.Draw(2), mid: t.Draw(2) == 1})
 	}
 	terminal := t.Draw(5) // 0 none, 1 active read, 2 active write, 3/4 a past deadline set while a Read / Write is blocked
 	// bgRead: a Read is blocked in another goroutine during the whole program,
@@ -409,6 +410,17 @@ func c18Deadlines(r *Run) {
 				}
 			case 1, 2, 3:
 				rd, wr := s.kind != 2, s.kind != 1
+				mid := s.mid && rd && !bgRead
+				if mid {
+					// half of a message is consumed before the deadline is set
+					peer.Inject(peer.Encode(wsref.Frame{Fin: true, Opcode: wsref.OpBinary, Payload: []byte("first-half|second-half")}))
+					buf := make([]byte, 11)
+					if _, err := io.ReadFull(nc, buf); err != nil || string(buf) != "first-half|" {
+						r.Violate("round-trip-failed", sig+",mid", "read of the first half failed: %q %v %s", buf, err, where)
+						return
+					}
+					r.S.Count("probe.idle-deadline-mid-message")
+				}
 				dl := time.Now().Add(s.d)
 				switch {
 				case rd && wr:
@@ -432,7 +444,7 @@ func c18Deadlines(r *Run) {
 					peer.Inject(peer.Encode(wsref.Frame{Fin: true, Opcode: wsref.OpBinary, Payload: []byte("pending")}))
 					n, err := nc.Read(make([]byte, 7))
 					if !isDeadlineErr(err) {
-						r.Violate("idle-deadline-not-reported", sig+",read", "Read after an expired idle deadline returned %d, %v (want a deadline error) %s", n, err, where)
+						r.Violate("idle-deadline-not-reported", sig+",read", "Read after an expired idle deadline returned %d, %v (want a deadline error) %s (message partly consumed: %v)", n, err, where, mid)
 						return
 					}
 				}
@@ -448,6 +460,13 @@ func c18Deadlines(r *Run) {
 					return
 				}
 				reset(s, rd, wr)
+				if mid {
+					buf := make([]byte, 11)
+					if _, err := io.ReadFull(nc, buf); err != nil || string(buf) != "second-half" {
+						r.Violate("round-trip-failed", sig+",after-reset", "read of the rest of the partly consumed message after resetting the deadline failed: %q %v %s", buf, err, where)
+						return
+					}
+				}
 				if rd {
 					// the message injected above is still pending
 					buf := make([]byte, 7)
